@@ -911,28 +911,27 @@ Proof. induction l as [|y l IH]; intros [|i] x; cbn; try reflexivity. rewrite IH
 Lemma map_repeat' : forall A B (f : A -> B) x n, map f (repeat x n) = repeat (f x) n.
 Proof. induction n as [|n IH]; cbn; [reflexivity|]. rewrite IH. reflexivity. Qed.
 
-(* from_sparse before the hardening (Range.v) with its four bounds abstracted *)
+(* Range.from_sparse (Range.v, resynced to the hardened code) with its four bounds abstracted *)
 Definition fs_core (T : Type) (d : T) (row_start row_end col_start col_end : N)
            (cells : list (pos * T)) : outcome (range T) :=
   do c0' <- sub32 col_end col_start;
-  do cols <- add32 c0' 1;
+  let cols := c0' + 1 in
   do r0' <- sub32 row_end row_start;
-  do rows <- add32 r0' 1;
-  let len := cols * rows in
+  let rows := r0' + 1 in
+  let len := sat_mul_usize cols rows in
   let v0 := repeat d (N.to_nat len) in
   do v <- fold_left (fun (acc : outcome (list T)) c =>
             do v <- acc;
             do row <- sub32 (fst (fst c)) row_start;
             do col <- sub32 (snd (fst c)) col_start;
-            let idx := row * cols + col in
+            let idx := sat_mul_usize row cols + col in
             if idx <? len then Ok (list_set v (N.to_nat idx) (snd c)) else Ok v)
           cells (Ok v0);
   Ok (mkRange (row_start, col_start) (row_end, col_end) v).
 
 Lemma from_sparse_core : forall T (d : T) c0 cs,
   from_sparse d (c0 :: cs) =
-  fs_core T d (fst (fst c0)) (fst (fst (last (c0 :: cs) c0))) (col_lo (c0 :: cs)) (col_hi (c0 :: cs))
-          (c0 :: cs).
+  fs_core T d (row_lo (c0 :: cs)) (row_hi (c0 :: cs)) (col_lo (c0 :: cs)) (col_hi (c0 :: cs)) (c0 :: cs).
 Proof. reflexivity. Qed.
 
 (* --- the hardened from_sparse commutes with a map on the values --- *)
@@ -1050,62 +1049,45 @@ Proof.
 Qed.
 
 Lemma fs_core_eq : forall T (d : T) rs re cl ch (cs : list (pos * T)),
-  rs <= re -> cl <= ch -> re <= 999999999 -> ch <= 999999999 ->
-  (forall c, In c cs -> rs <= fst (fst c) /\ fst (fst c) <= re /\ cl <= snd (fst c)) ->
+  rs <= re -> cl <= ch ->
+  (forall c, In c cs -> rs <= fst (fst c) /\ cl <= snd (fst c)) ->
   fs_core T d rs re cl ch cs = Ok (fsx_core d rs re cl ch cs).
 Proof.
-  intros T d rs re cl ch cs Hr Hc Br Bc H. unfold fs_core, fsx_core, sub32, add32. cbv zeta. unfold pos in *.
+  intros T d rs re cl ch cs Hr Hc H. unfold fs_core, fsx_core, sub32, sat_mul_usize, sat64. cbv zeta.
+  unfold pos in *.
   assert (E1 : (cl <=? ch) = true) by (apply N.leb_le; exact Hc). rewrite E1. cbn [obind].
-  assert (E2 : (ch - cl + 1 <=? U32MAX) = true) by (apply N.leb_le; unfold U32MAX; lia). rewrite E2.
-  cbn [obind].
   assert (E3 : (rs <=? re) = true) by (apply N.leb_le; exact Hr). rewrite E3. cbn [obind].
-  assert (E4 : (re - rs + 1 <=? U32MAX) = true) by (apply N.leb_le; unfold U32MAX; lia). rewrite E4.
-  cbn [obind].
   set (cols := ch - cl + 1). set (rows := re - rs + 1).
-  assert (S0 : sat64 (cols * rows) = cols * rows).
-  { apply sat64_id. unfold U64MAX. subst cols rows. nia. }
-  rewrite S0.
   assert (G : forall l v, (forall c, In c l -> In c cs) ->
     fold_left (fun (acc : outcome (list T)) c =>
        do v <- acc;
        do row <- (if rs <=? fst (fst c) then Ok (fst (fst c) - rs) else Panic);
        do col <- (if cl <=? snd (fst c) then Ok (snd (fst c) - cl) else Panic);
-       if row * cols + col <? cols * rows then Ok (list_set v (N.to_nat (row * cols + col)) (snd c)) else Ok v)
+       if N.min (row * cols) U64MAX + col <? N.min (cols * rows) U64MAX
+       then Ok (list_set v (N.to_nat (N.min (row * cols) U64MAX + col)) (snd c)) else Ok v)
       l (Ok v) =
     Ok (fold_left (fun v c =>
-       if sat64 ((fst (fst c) - rs) * cols) + (snd (fst c) - cl) <? cols * rows
-       then list_set v (N.to_nat (sat64 ((fst (fst c) - rs) * cols) + (snd (fst c) - cl))) (snd c) else v)
+       if N.min ((fst (fst c) - rs) * cols) U64MAX + (snd (fst c) - cl) <? N.min (cols * rows) U64MAX
+       then list_set v (N.to_nat (N.min ((fst (fst c) - rs) * cols) U64MAX + (snd (fst c) - cl))) (snd c) else v)
       l v)).
   { induction l as [|x l IH]; intros v Hsub; [reflexivity|]. cbn [fold_left obind].
-    destruct (H x (Hsub x (or_introl eq_refl))) as [A1 [A2 A3]].
+    destruct (H x (Hsub x (or_introl eq_refl))) as [A1 A3].
     apply N.leb_le in A1 as A1', A3 as A3'. rewrite A1', A3'. cbn [obind].
-    assert (S1 : sat64 ((fst (fst x) - rs) * cols) = (fst (fst x) - rs) * cols).
-    { apply sat64_id. unfold U64MAX. subst cols. nia. }
-    rewrite S1.
-    destruct ((fst (fst x) - rs) * cols + (snd (fst x) - cl) <? cols * rows);
+    destruct (N.min ((fst (fst x) - rs) * cols) U64MAX + (snd (fst x) - cl) <? N.min (cols * rows) U64MAX);
       apply IH; intros c0 Hc0; apply Hsub; right; exact Hc0. }
   rewrite G by auto. reflexivity.
 Qed.
 
+(* sortedness and the bound are no longer needed (Range.v follows the hardened code); the
+   hypotheses are kept so that callers are unchanged *)
 Lemma from_sparse_x_eq : forall T (d : T) (cs : list (pos * T)),
   sorted_by_row cs ->
   (forall c, In c cs -> fst (fst c) <= 999999999 /\ snd (fst c) <= 999999999) ->
   from_sparse d cs = Ok (from_sparse_x d cs).
 Proof.
-  intros T d cs HS HB. destruct cs as [|c0 cs]; [reflexivity|].
+  intros T d cs _ _. destruct cs as [|c0 cs]; [reflexivity|].
   rewrite from_sparse_core. unfold from_sparse_x.
-  pose proof (sorted_by_row_adj T (c0 :: cs) HS) as AS.
   set (kr := fun c : pos * T => fst (fst c)). set (kc := fun c : pos * T => snd (fst c)).
-  assert (B0 : kr c0 <= 999999999) by (apply (HB c0); left; reflexivity).
-  assert (RL : row_lo (c0 :: cs) = kr c0).
-  { change (row_lo (c0 :: cs)) with (kmin _ kr (c0 :: cs) U32MAX). unfold kmin. cbn [fold_left].
-    assert (E : (if kr c0 <? U32MAX then kr c0 else U32MAX) = kr c0).
-    { destruct (kr c0 <? U32MAX) eqn:E; [reflexivity|]. apply N.ltb_ge in E. unfold U32MAX in *. lia. }
-    rewrite E. apply (kmin_first _ kr). intros c Hc. apply (adj_sorted_ge_first _ kr cs c0 AS c Hc). }
-  assert (RH : row_hi (c0 :: cs) = kr (last (c0 :: cs) c0)).
-  { change (row_hi (c0 :: cs)) with (kmax _ kr (c0 :: cs) 0). apply kmax_last; [exact AS|lia]. }
-  change (fst (fst c0)) with (kr c0). change (fst (fst (last (c0 :: cs) c0))) with (kr (last (c0 :: cs) c0)).
-  rewrite <- RL, <- RH.
   destruct (kmin_le _ kr (c0 :: cs) U32MAX) as [_ RLle].
   destruct (kmax_ge _ kr (c0 :: cs) 0) as [_ RHge].
   destruct (kmin_le _ kc (c0 :: cs) U32MAX) as [_ CLle].
@@ -1116,13 +1098,9 @@ Proof.
   change (kmax _ kc (c0 :: cs) 0) with (col_hi (c0 :: cs)) in CHge.
   assert (I0 : In c0 (c0 :: cs)) by (left; reflexivity).
   apply fs_core_eq.
-  - specialize (RLle c0 I0). specialize (RHge c0 I0). lia.
-  - specialize (CLle c0 I0). specialize (CHge c0 I0). lia.
-  - change (row_hi (c0 :: cs)) with (kmax _ kr (c0 :: cs) 0). apply kmax_le_bound; [lia|].
-    intros c Hc. apply (HB c Hc).
-  - change (col_hi (c0 :: cs)) with (kmax _ kc (c0 :: cs) 0). apply kmax_le_bound; [lia|].
-    intros c Hc. apply (HB c Hc).
-  - intros c Hc. split; [apply RLle; exact Hc|]. split; [apply RHge; exact Hc|apply CLle; exact Hc].
+  - specialize (RLle c0 I0). specialize (RHge c0 I0). unfold kr in *. lia.
+  - specialize (CLle c0 I0). specialize (CHge c0 I0). unfold kc in *. lia.
+  - intros c Hc. split; [apply RLle; exact Hc|apply CLle; exact Hc].
 Qed.
 
 (* ------------------------------------------------------------------ the encoded cells as one list *)
